@@ -79,6 +79,7 @@ class Env:
         self.current_target = None
         self.touched = {}
         self.trusted = []           # human readable list of assumed contracts
+        self.object_models = {}     # id(real module-level object) -> schema name
         self.attr_models = {}       # (schema, attr) -> ModelMethod evaluated on attribute read
 
     # -- registration helpers
